@@ -132,7 +132,18 @@ CORPUS = [
                                 {"kind": "sliding_window", "ups": [1], "n": 2, "partial": True}, {"kind": "sink", "mode": "async", "ups": [2]}],
      "ops": [{"op": "emit", "node": 0, "val": 1, "md": [{"tag": 1, "ref": 1}]}, {"op": "emit", "node": 0, "val": 2, "md": [{"tag": 2, "ref": 2}]},
              {"op": "emit", "node": 0, "val": 3, "md": [{"tag": 3, "ref": 3}]}, {"op": "sinkfail", "tok": 0}, {"op": "sinkdone", "tok": 1}]},
+    # the user function below a one-to-many node raises StopIteration / KeyError / a falsy exception: no frame on the way up may take it
+    # for its own control flow (flatten iterates, pluck indexes, unique looks keys up)
 ]
+for _exc in ("StopIteration", "KeyError", "FalsyError"):
+    for _mode in ("sync", "async"):
+        CORPUS.append({"mode": _mode, "exc": _exc, "nodes": [{"kind": "source", "ups": []}, {"kind": "map", "f": ["rep", 3], "ups": [0]}, {"kind": "flatten", "ups": [1]},
+                                                              {"kind": "map", "f": ["failIf", 2, 0], "ups": [2]}, {"kind": "sink", "mode": "sync", "f": ["id"], "ups": [3]}],
+                       "ops": [{"op": "emit", "node": 0, "val": v, "md": [{"tag": i + 1, "ref": i + 1}]} for i, v in enumerate((1, 2, 3))]})
+        CORPUS.append({"mode": _mode, "exc": _exc, "nodes": [{"kind": "source", "ups": []}, {"kind": "map", "f": ["pair"], "ups": [0]}, {"kind": "pluck", "pick": 0, "ups": [1]},
+                                                              {"kind": "unique", "ups": [2], "maxsize": 2, "key": ["failIf", 3, 1], "hashable": True},
+                                                              {"kind": "sink", "mode": "sync", "f": ["failIf", 3, 2], "ups": [3]}],
+                       "ops": [{"op": "emit", "node": 0, "val": v, "md": [{"tag": i + 1, "ref": i + 1}]} for i, v in enumerate((3, 1, 2, 4))]})
 
 
 def evaluate(ctx, case, obs, answers):
@@ -167,10 +178,13 @@ def threaded_sample(ctx, n):
     for i in range(n):
         where = ("map", "async-sink", "sync-sink", "async-sink-after-rate-limit", "second-async-sink", "third-of-three-async-sinks")[i % 6]
         fail_on = i % 3
+        from .. import catalogue
+        exc_name = ("ValueError", "FalsyError", "KeyError")[(i // 6) % 3]       # (a falsy exception instance: an empty error collection)
+        exc_cls = catalogue.EXC_KINDS[exc_name]
 
-        def boom(x):
+        def boom(x, exc_cls=exc_cls):
             if x == fail_on:
-                raise ValueError("user function failed")
+                raise exc_cls("user function failed")
             return x
 
         async def aboom(x):
@@ -199,7 +213,7 @@ def threaded_sample(ctx, n):
             src.sink(aboom)
         else:
             src.rate_limit(0.001).sink(aboom)
-        case = {"threaded": True, "where": where, "fail_on": fail_on}
+        case = {"threaded": True, "where": where, "fail_on": fail_on, "exc": exc_name}
         ctx.case(case, nontrivial=True)
         ctx.count("threaded:" + where)
         for x in range(3):
@@ -208,9 +222,9 @@ def threaded_sample(ctx, n):
                 src.emit(x)
             except Exception as e:  # noqa: BLE001
                 raised = type(e).__name__
-            if x == fail_on and raised != "ValueError":
-                ctx.failure("threaded-exception-lost:" + where,
-                            "blocking emit(%d) returned normally (raised=%r) although the %s raised ValueError" % (x, raised, where), case)
+            if x == fail_on and raised != exc_name:
+                ctx.failure("threaded-exception-lost:" + where + (":falsy-exception" if exc_name == "FalsyError" else ""),
+                            "blocking emit(%d) returned normally (raised=%r) although the %s raised %s" % (x, raised, where, exc_name), case)
             if x != fail_on and raised:
                 ctx.failure("threaded-spurious-exception:" + where, "blocking emit(%d) raised %s" % (x, raised), case)
 
@@ -388,7 +402,8 @@ def run(ctx):
         graphcheck.normalise_literals(nodes)
         flavour = ("future", "coro", "tornado")[i % 3] if mode == "async" else "future"
         case, obs = graphcheck.run_adaptive(nodes, mode, rng, rng.randint(6, 16),
-                                            opts={"p_weird": 0.08, "p_sinkfail": 0.25}, flavour=flavour)
+                                            opts={"p_weird": 0.08, "p_sinkfail": 0.25,
+                                                  "exc": (None, None, "StopIteration", "KeyError", "FalsyError", "OSError")[(i // 2) % 6]}, flavour=flavour)
         case["flavour"] = flavour
         batch.append((case, obs))
         if len(batch) >= 500:
